@@ -1098,6 +1098,7 @@ where
     let source = msg;
 
     *target.header_mut() = msg.header();
+    target.header_mut().set_qr(true);
     target.header_mut().set_rcode(Rcode::SERVFAIL);
     target.header_mut().set_ad(false);
 
